@@ -123,15 +123,21 @@ class StoreDriver(Harness):
         self.libpath = libpath
         self.want_fresh = fresh
         self.umask = umask
-        self.big = big
+        self.big = int(big)
         self.helper = None
 
     def rnd(self, n):
         return bytes(self.rng.randrange(256) for _ in range(n))
 
+    # lengths around the powers of two up to 1 MiB: where a length field, a buffer or a limit of the store would break -
+    # for the value itself, or for its encrypted form (IV + padded ciphertext: 16 to 32 bytes longer)
+    EDGES = sorted(set(2 ** k + d for k in range(4, 21) for d in (-16, -1, 0)))
+
     def begin(self):
         self.setup_tokens("P1", "P2")
-        self.vals = Values(self.rng, self.big)
+        self.nbeg = getattr(self, "nbeg", -1) + 1
+        big = self.big
+        self.vals = Values(self.rng, big)
         with open(os.path.join(self.workdir, "vals.json"), "w") as f:
             json.dump({k: v.hex() for k, v in self.vals.b.items()}, f)
         self.open()
@@ -403,7 +409,7 @@ def main():
     if sys.argv[1] == "--helper":
         return helper_main(*sys.argv[2:6])
     lib, bfile, out, workdir, seed, backend, fresh, umask = sys.argv[1:9]
-    big = int(sys.argv[9]) if len(sys.argv) > 9 else 5000
+    big = sys.argv[9] if len(sys.argv) > 9 else "5000"
     cls = sys.argv[10] if len(sys.argv) > 10 else "secret"
     behaviours = json.load(open(bfile))
     d = StoreDriver(lib, workdir, int(seed), backend, fresh == "1", int(umask, 8), big, cls)
@@ -413,6 +419,12 @@ def main():
             d.begin()
             em.emit({"e": "Reset", "b": i})
             for label in beh:
+                if isinstance(label, (list, tuple)) and label[0] == "MEdge":
+                    # (not a call: the length of the value that the symbol "big" stands for in this behaviour)
+                    d.vals = Values(d.rng, int(label[1]))
+                    with open(os.path.join(d.workdir, "vals.json"), "w") as f:
+                        json.dump({k: v.hex() for k, v in d.vals.b.items()}, f)
+                    continue
                 em.emit(d.step(label))
             em.flush()
     finally:
